@@ -120,6 +120,21 @@ func vhSame(a, b any) bool {
 	case int:
 		y, ok := b.(int)
 		return ok && x == y
+	case []string:
+		y, ok := b.([]string)
+		return ok && len(x) == len(y) && (len(x) == 0 || &x[0] == &y[0])
+	case Stack: // zero values included (the converters refuse those)
+		y, ok := b.(Stack)
+		return ok && x.stack == y.stack
+	case vhAliasStack:
+		y, ok := b.(vhAliasStack)
+		return ok && x.stack == y.stack
+	case Condition:
+		y, ok := b.(Condition)
+		return ok && x.condition == y.condition
+	case vhAliasCond:
+		y, ok := b.(vhAliasCond)
+		return ok && x.condition == y.condition
 	case *Stack:
 		y, ok := b.(*Stack)
 		return ok && x == y
